@@ -24,7 +24,7 @@ from vcdd.oracle.ircmp import canon
 KINDS = ("function_parse_partial", "emit_class", "emit_function", "emit_argparse", "emit_sqlalchemy", "emit_docstring",
          "json_schema", "infer_imports", "merge_assignment_lists", "gen_file", "gen_file_imports", "doctrans",
          "openapi", "class_parse", "sync_properties", "optimise_imports", "emit_sqlalchemy_custom", "docstring_parse",
-         "function_parse_footer")
+         "function_parse_footer", "gen_phase1")
 
 # a small shared pool of type names the converters have no table entry for: a later case meets names an earlier
 # (or an interleaved, unrelated) conversion has already seen - what a module-level table that learns would change
@@ -112,6 +112,23 @@ def run_case(kind, r, tmp):
             return canon(cdd.docstring.parse.docstring(text))
         src = 'def foo(%s):\n    """%s"""\n    return None\n' % (", ".join(p[0] for p in params), text)
         return hops.emit(cdd.function.parse.function(ast.parse(src).body[0]), "class")[1]
+    if kind == "gen_phase1":
+        # second phase of `gen --emit sqlalchemy`: one import per foreign table referenced by the model file
+        import cdd.sqlalchemy.utils.emit_utils as sa_eu
+
+        tables = r.sample(["Customer", "Product", "Courier", "Warehouse", "Invoice", "Supplier"], r.randint(2, 5))
+        cols = ["    order_id = Column(Integer, primary_key=True, comment='the id')"] + [
+            "    %s = Column(%s, ForeignKey('%s'), comment='the %s')" % (t.lower(), t, t, t.lower()) for t in tables]
+        src = ("from sqlalchemy import Column, ForeignKey, Integer\n\n\nclass Order(Base):\n    \"\"\"\n    Order record\n    \"\"\"\n"
+               "    __tablename__ = 'order_tbl'\n\n" + "\n".join(cols) + "\n")
+        d = os.path.join(tmp, "models")
+        os.makedirs(d, exist_ok=True)
+        path = os.path.join(d, "model_%d.py" % r.randint(0, 10 ** 9))
+        with open(path, "w") as f:
+            f.write(src)
+        sa_eu.update_with_imports_from_columns(path)
+        with open(path) as f:
+            return f.read()
     if kind == "emit_sqlalchemy_custom":
         return hops.emit(custom_ir(r), r.choice(("sqlalchemy", "sqlalchemy_table", "sqlalchemy_hybrid")))[1]
     if kind.startswith("emit_"):
